@@ -52,7 +52,7 @@ func (w *fileWriter) file(file *model.File) error {
 	for _, imp := range file.Imports {
 		pkg := importPackage(imp)
 		name := imp.Name
-		if !strings.Contains(body, imp.Name+".") {
+		if !usesImport(body, imp.Name) {
 			name = "_"
 		}
 		w.linef(`%v "%v"`, name, pkg)
@@ -176,4 +176,25 @@ func (w *fileWriter) service(def *model.Definition) error {
 
 func (w *fileWriter) serviceImpl(def *model.Definition) error {
 	return newServiceImplWriter(w.writer).serviceImpl(def)
+}
+
+// usesImport returns true if the generated code references the package name as a qualifier,
+// a name which only ends another identifier ("c." in "spec.") does not count.
+func usesImport(body string, name string) bool {
+	q := name + "."
+	for i := 0; ; {
+		j := strings.Index(body[i:], q)
+		if j < 0 {
+			return false
+		}
+		j += i
+		if j == 0 || !isIdentChar(body[j-1]) {
+			return true
+		}
+		i = j + 1
+	}
+}
+
+func isIdentChar(c byte) bool {
+	return c == '_' || (c >= '0' && c <= '9') || (c >= 'a' && c <= 'z') || (c >= 'A' && c <= 'Z') || c >= 0x80
 }
